@@ -19,6 +19,11 @@ func (s *Sim) checkZero(h ecs.Entity, ts []int, where string) {
 		if U[t].Size == 0 {
 			continue
 		}
+		if l, ok := s.M.ByHandle[h]; ok {
+			if mv, has := s.M.Get(l).Comps[t]; has && mv != 0 {
+				continue // a callback of the same operation already wrote to it
+			}
+		}
 		if v := U[t].Get(p); v != 0 {
 			s.violate("C11", "mem.zero", where, false, "component T%02d added without initial value by %s reads %#x instead of its zero value", t, where, v)
 			return
@@ -532,7 +537,8 @@ func (s *Sim) opSet(op *Op) {
 	} else {
 		cs = uniqKeep(op.Cs)
 	}
-	if s.Flags.ForceUnsafe {
+	if s.Flags.ForceUnsafe && path != PMap {
+		// Map.Set has no ID-based counterpart (it emits OnSetComponents); it stays typed.
 		path = PUnsafe
 	}
 	if len(cs) == 0 || !e.Has(cs...) {
